@@ -10,7 +10,7 @@ import random
 
 from .. import core, tlc
 
-UOD = ["Short", "Long", "Forever", "OvA", "OvB", "Loop1"]
+UOD = ["Short", "Long", "Forever", "OvA", "OvB", "OvC", "Loop1"]
 CTL = ["Start", "Stop", "Restart", "Pause", "Unpause", "Hold", "Unhold"]
 METHOD = ["Base: s", "Mark: A", ""]
 
@@ -100,7 +100,7 @@ def run_lockstep(ctx: core.Ctx):
     # two requests before the same tick, all ordered pairs, in the three situations: stopped, running, right after Stop was requested
     pairs = list(itertools.product(UOD + CTL, repeat=2))
     for n, (a, b) in enumerate(pairs):
-        for m, lead in enumerate(([], [["Start"], []], [["Start"], ["Long"], ["Stop"]], [["Start"], ["OvA"], ["Restart"]],
+        for m, lead in enumerate(([], [["Start"], []], [["Start"], ["Long"], ["Stop"]], [["Start"], ["OvA"], ["Restart"]], [["Start"], ["OvC"], ["OvA"]],
                                   [["Start"], ["Forever"], ["Restart"], []])):
             traces.append(_run(lead + [[a, b]] + [[], [], ["Long"], [], [], [], []], f"p{n}-{m}"))
     verdicts, stats = core.validate_traces("CmdMgrLockTrace", [{"id": t["id"], "ev": t["ev"]} for t in traces], max_events=40000)
